@@ -180,6 +180,9 @@ func replyFingerprint(m *Model, s *Sess, argv []string, exp Expect, got Value) s
 	if s.InMulti {
 		rel += ":multi"
 	}
+	if optionsReordered(name, argv) {
+		rel += ":reordered"
+	}
 	ek := "val"
 	switch exp.Mode {
 	case exErr:
@@ -392,4 +395,38 @@ func clipStrs(l []string) []string {
 		out = append(out, clipS(e, 16))
 	}
 	return out
+}
+
+// optionsReordered: SET / SORT options appear in another order than the
+// command definition lists them (feature used by known finding KF-option-order).
+func optionsReordered(name string, argv []string) bool {
+	var rank map[string]int
+	var skip map[string]int
+	start := 0
+	switch name {
+	case "set":
+		rank = map[string]int{"NX": 1, "XX": 1, "GET": 2, "EX": 3, "PX": 3, "EXAT": 3, "PXAT": 3, "KEEPTTL": 3}
+		skip = map[string]int{"EX": 1, "PX": 1, "EXAT": 1, "PXAT": 1}
+		start = 3
+	case "sort":
+		rank = map[string]int{"BY": 1, "LIMIT": 2, "GET": 3, "ASC": 4, "DESC": 4, "ALPHA": 5, "STORE": 6}
+		skip = map[string]int{"BY": 1, "LIMIT": 2, "GET": 1, "STORE": 1}
+		start = 2
+	default:
+		return false
+	}
+	last := 0
+	for i := start; i < len(argv); i++ {
+		t := strings.ToUpper(argv[i])
+		r, ok := rank[t]
+		if !ok {
+			return false
+		}
+		if r < last {
+			return true
+		}
+		last = r
+		i += skip[t]
+	}
+	return false
 }
